@@ -11,6 +11,7 @@ import (
 	"encoding/base64"
 	"errors"
 	"fmt"
+	"hash/fnv"
 	"os"
 	"path/filepath"
 	"reflect"
@@ -76,14 +77,15 @@ type class struct {
 }
 
 type engine struct {
-	out     *res.Result
-	workers int
-	t0      time.Time
-	limit   time.Duration
-	classes map[string]*class
-	perOp   map[string]int
-	capped  bool
-	guard   time.Duration
+	out      *res.Result
+	workers  int
+	t0       time.Time
+	limit    time.Duration
+	classes  map[string]*class
+	distinct map[uint64]struct{}
+	perOp    map[string]int
+	capped   bool
+	guard    time.Duration
 }
 
 func (e *engine) expired() bool {
@@ -133,6 +135,28 @@ func (e *engine) runBatch(jobs []job) []result {
 		}()
 	}
 	wg.Wait()
+	// a timeout is only believed when it reproduces alone with a longer guard (the machine is shared:
+	// under load a slow but finite input can exceed the 5 s guard)
+	for i := range out {
+		if out[i].status != "timeout" {
+			continue
+		}
+		var acc bool
+		in := jobs[i].input()
+		o := render.Guard(4*e.guard, func() { acc = jobs[i].run(in) })
+		switch {
+		case o.Timeout:
+			out[i].msg = fmt.Sprintf("no result after %s, and again after %s when run alone", e.guard, 4*e.guard)
+		case o.Panic != "":
+			out[i] = result{status: "panic", site: o.Site, msg: o.Panic, stack: o.Stack}
+		default:
+			e.out.Hit("slow:finished-when-run-alone")
+			out[i] = result{status: "error"}
+			if acc {
+				out[i] = result{status: "ok", accepted: true}
+			}
+		}
+	}
 	return out
 }
 
@@ -145,7 +169,20 @@ func opGroup(op string) string {
 
 func (e *engine) record(j job, r result) {
 	in := j.input()
-	e.out.Count(j.op+"\x00"+in, r.accepted || j.mut)
+	// same accounting as res.Result.Count, with a 64-bit hash of (entry point, input) as the
+	// distinctness key: the thorough tier evaluates ~2*10^7 inputs, whose texts would not fit in memory
+	e.out.Evaluations++
+	if r.accepted || j.mut {
+		h := fnv.New64a()
+		h.Write([]byte(j.op))
+		h.Write([]byte{0})
+		h.Write([]byte(in))
+		k := h.Sum64()
+		if _, dup := e.distinct[k]; !dup {
+			e.distinct[k] = struct{}{}
+			e.out.Nontrivial++
+		}
+	}
 	e.out.Hit("op:" + opGroup(j.op))
 	e.out.Hit("outcome:" + r.status)
 	if j.mut {
@@ -184,13 +221,24 @@ type group struct {
 	mutate func(r *rng.R, j job) []job // nil: the generic text mutator on the body
 }
 
-func (e *engine) runGroup(g group, r *rng.R, scale int) {
-	total := g.n * scale
+// gstate is what a group keeps from one pass to the next (the thorough tier is up to 30 passes
+// over all the groups, so that the time cap cuts every group alike).
+type gstate struct {
+	r      *rng.R
+	pool   []job // accepted inputs, the sources of mutations
+	inputs int
+	secs   float64
+}
+
+func (e *engine) runGroup(g group, st *gstate) {
+	r := st.r
+	total := g.n
 	batch := g.batch
 	if batch == 0 {
 		batch = 4000
 	}
-	var pool []job
+	pool := st.pool
+	defer func() { st.pool = pool }()
 	done := 0
 	addPool := func(js []job, rs []result) {
 		for i, x := range rs {
@@ -361,7 +409,13 @@ func (e *engine) report() {
 		}(oi, s)
 	}
 	wg.Wait()
+	seen := map[string]bool{}
 	for _, f := range findings {
+		k := f.Op + "\x00" + f.Key + "\x00" + fmt.Sprint(f.Input)
+		if seen[k] { // several failing inputs of a class often shrink to the same text
+			continue
+		}
+		seen[k] = true
 		e.out.Add(f)
 	}
 }
@@ -1279,7 +1333,9 @@ func (g *svgGen) document() (string, bool) {
 const drawSafeMark = "<!--c07:drawsafe-->"
 
 var svgContainerRe = regexp.MustCompile(`(?i)marker|clippath|clip-path|mask|pattern`)
-var svgTextRe = regexp.MustCompile(`(?i)<\s*(text|tspan|tref|textpath|image|use)`)
+
+// elements laid out as text need a text context, which this harness does not provide
+var svgTextRe = regexp.MustCompile(`(?i)<\s*(text|tspan|tref|textpath|image|a)([\s>/]|$)`)
 
 func attrValueFor(g *svgGen, kind string) string {
 	r := g.r
@@ -1338,13 +1394,20 @@ var urlRefs = []string{"", "a.png", "./a", "../a", "../../../../a", "/a", "//h/a
 
 var htmlAttrValues = []string{"", "0", "-1", "2", "+3", " 4 ", "2.5", "abc", "1e3", "99999999999999999999", "-99999999999999999999", "0x10", "１２", "1000", "65535", "1%", "50%", "*", "\x00", "1", "3", "7", "-0", "+", "-", "2 3", "2,3", "2px", "100", "٣", " ", "\t5\n", "1_000", "0b1", "NaN", "Infinity", "9223372036854775807", "9223372036854775808", "-9223372036854775809", "4294967296", "2147483648"}
 
-func spanValue(r *rng.R) string { // colspan / rowspan / span: numeric values <= 1000 in most cases
+// bigSpan reports whether an attribute value reads as an integer above 100.
+func bigSpan(v string) bool {
+	n, err := strconv.Atoi(strings.TrimSpace(v))
+	return err == nil && n > 100
+}
+
+// spanValue: colspan / rowspan / span values; integers above 100 are never generated in process:
+// boxes.handleCol / handleColgroup allocate `span` boxes (<col span=4294967296> is a fatal
+// out-of-memory, which no guard can recover), and large colspan/rowspan are legitimately slow
+// (colspan=1000 needs more than the 5 s guard on a loaded machine).
+func spanValue(r *rng.R) string {
 	v := rng.Pick(r, htmlAttrValues...)
-	switch v {
-	case "65535", "4294967296", "2147483648", "9223372036854775807":
-		if !r.P(1, 50) {
-			return rng.Pick(r, "2", "3", "40", "1000", "7")
-		}
+	if bigSpan(v) {
+		return rng.Pick(r, "2", "3", "40", "100", "7")
 	}
 	return v
 }
@@ -1407,4 +1470,756 @@ func genHTMLMetaDoc(r *rng.R) string {
 	return b.String()
 }
 
-// ==END==
+// ---------------------------------------------------------------------------------------------
+// runners: the real code
+
+// safeFetch serves data: URIs through the real fetcher and refuses everything else (no network,
+// no file access from the harness).
+func safeFetch(url string) (utils.RemoteRessource, error) {
+	if len(url) >= 5 && strings.EqualFold(url[:5], "data:") {
+		return utils.DefaultUrlFetcher(url)
+	}
+	return utils.RemoteRessource{}, errors.New("c07: only data: URIs are fetched: " + url)
+}
+
+func hasErrTok(ts []pa.Token, depth int) bool {
+	for _, t := range ts {
+		switch t := t.(type) {
+		case pa.ParseError:
+			return true
+		case pa.FunctionBlock:
+			if depth < 50 && hasErrTok(t.Arguments, depth+1) {
+				return true
+			}
+		}
+		_ = t.Kind()
+		_ = t.Pos()
+	}
+	return false
+}
+
+func roundTripTokens(ts []pa.Token) {
+	s := pa.Serialize(ts)
+	ts2 := pa.Tokenize([]byte(s), false)
+	_ = pa.Serialize(ts2)
+}
+
+func exerciseCompounds(cs []pa.Compound, depth int) bool {
+	ok := len(cs) > 0
+	for _, c := range cs {
+		_ = pa.VerifC07SerializeCompound(c)
+		_ = c.Pos()
+		switch c := c.(type) {
+		case pa.ParseError:
+			ok = false
+		case pa.QualifiedRule:
+			roundTripTokens(c.Prelude)
+			if depth < 4 {
+				exerciseCompounds(pa.ParseBlocksContents(c.Content, false), depth+1)
+				pa.ParseDeclarationList(c.Content, true, true)
+			}
+		case pa.AtRule:
+			roundTripTokens(c.Prelude)
+			if c.Content != nil && depth < 4 {
+				exerciseCompounds(pa.ParseRuleList(c.Content, false, false), depth+1)
+				pa.ParseBlocksContents(c.Content, true)
+			}
+		case pa.Declaration:
+			roundTripTokens(c.Value)
+		}
+	}
+	return ok
+}
+
+func runTokenize(in string) bool {
+	ts := pa.Tokenize([]byte(in), false)
+	roundTripTokens(ts)
+	pa.Tokenize([]byte(in), true)
+	pa.RemoveWhitespace(ts)
+	for _, part := range pa.SplitOnComma(ts) {
+		pa.ParseOneComponentValue(part)
+	}
+	for _, t := range ts {
+		pa.ParseFunction(t)
+		validation.HasVar(t)
+	}
+	return len(ts) > 0 && !hasErrTok(ts, 0)
+}
+
+func runParseStylesheet(in string) bool {
+	ok := exerciseCompounds(pa.ParseStylesheetBytes([]byte(in), false, false), 0)
+	pa.ParseStylesheetBytes([]byte(in), true, true)
+	pa.ParseStylesheet(pa.Tokenize([]byte(in), false), true, false)
+	return ok
+}
+
+func runParseDeclarations(in string) bool {
+	ok := exerciseCompounds(pa.ParseDeclarationListString(in, false, false), 0)
+	pa.ParseDeclarationListString(in, true, true)
+	return ok
+}
+
+func runParseBlocksContents(in string) bool {
+	ok := exerciseCompounds(pa.ParseBlocksContentsString(in), 0)
+	pa.ParseBlocksContents(pa.Tokenize([]byte(in), true), true)
+	return ok
+}
+
+func runParseOneDeclaration(in string) bool {
+	c := pa.ParseOneDeclaration(pa.Tokenize([]byte(in), false))
+	return exerciseCompounds([]pa.Compound{c}, 0)
+}
+
+func runParseRuleList(in string) bool {
+	ok := exerciseCompounds(pa.ParseRuleList(pa.Tokenize([]byte(in), false), false, false), 0)
+	pa.ParseRuleList(pa.Tokenize([]byte(in), true), true, true)
+	return ok
+}
+
+func runParseOneComponentValue(in string) bool {
+	t := pa.ParseOneComponentValue(pa.Tokenize([]byte(in), true))
+	if t == nil {
+		return false
+	}
+	pa.ParseColor(t)
+	if _, isErr := t.(pa.ParseError); isErr {
+		return false // parser-level errors ("empty", "extra input") are not serialisable by design
+	}
+	roundTripTokens([]pa.Token{t})
+	return true
+}
+
+func runNth(in string) bool {
+	ts := pa.Tokenize([]byte(in), true)
+	v := pa.ParseNth(ts)
+	pa.ParseNth(pa.Tokenize([]byte(in), false))
+	return v != nil
+}
+
+func runColor(in string) bool {
+	c := pa.ParseColorString(in)
+	_ = c.IsNone()
+	r, g, b, a := c.RGBA.Unpack()
+	_, _, _, _ = r, g, b, a
+	c.RGBA.RGBA()
+	return c.Type != 0
+}
+
+var selDoc = func() *html.Node {
+	n, _ := html.Parse(strings.NewReader(`<html lang="fr"><head><title>t</title></head><body><div id="id" class="c c1"><p class="c1" lang="en-US">a<span data-x="v">b</span></p><p></p><a href="#x">l</a><input type="checkbox" checked disabled><input type="text"><ul><li>1</li><li class="c">2</li><li>3</li></ul></div><table><tr><td>x</td><td a="v">y</td></tr></table><svg><rect/></svg></body></html>`))
+	return n
+}()
+
+func runSelector(in string) bool {
+	g, err := selector.ParseGroup(in)
+	if s, err1 := selector.Parse(in); err1 == nil {
+		_ = s.String()
+	}
+	if err != nil {
+		return false
+	}
+	for _, s := range g {
+		_ = s.String()
+		_ = s.Specificity()
+		_ = s.PseudoElement()
+	}
+	str := g.String()
+	if g2, err := selector.ParseGroup(str); err == nil {
+		_ = g2.String()
+	}
+	selector.MatchAll(selDoc, g)
+	selector.MatchFirst(selDoc, g)
+	return true
+}
+
+var varEnv = func() map[string]pr.RawTokens {
+	m := map[string]pr.RawTokens{}
+	for k, v := range map[string]string{"--x": "10px", "--y": "", "--z": "red , blue", "--c": "var(--c)", "--d": "var(--e)", "--e": "var(--d) 1", "--k": "solid", "--n": "2", "--s": "'str'", "--u": "url(a.png)", "--f": "calc(1px + 2%)", "--": "1", "--w": " "} {
+		m[k] = pa.Tokenize([]byte(v), true)
+	}
+	return m
+}()
+
+// exerciseDecl does what the cascade does with a pending (var()-holding) declaration.
+func exerciseDecl(d validation.Declaration) {
+	raw, ok := d.Value.(pr.RawTokens)
+	if !ok || d.Name.Var != "" {
+		return
+	}
+	for _, env := range []map[string]pr.RawTokens{varEnv, nil} {
+		var solved []pa.Token
+		for _, t := range raw {
+			if ts := tree.VerifC07ResolveVar(env, t); ts != nil {
+				solved = append(solved, ts...)
+			} else {
+				solved = append(solved, t)
+			}
+		}
+		if len(solved) == 0 {
+			continue
+		}
+		if d.Shortand != 0 {
+			validation.ExpandValidatePending(d.Name.KnownProp, d.Shortand, solved)
+		} else {
+			validation.Validate(d.Name, solved)
+		}
+	}
+}
+
+func runValidate(in string) bool {
+	decls := validation.PreprocessDeclarations("", pa.ParseBlocksContentsString(in)) // the style attribute path
+	for _, d := range decls {
+		exerciseDecl(d)
+	}
+	validation.PreprocessDeclarations("http://c07.test/a/b.css", pa.ParseDeclarationListString(in, false, false))
+	for _, rule := range pa.ParseStylesheetBytes([]byte("a{"+in+"}"), false, false) { // the style sheet path
+		if qr, ok := rule.(pa.QualifiedRule); ok {
+			kd, _ := validation.PreprocessDeclarationsPrelude("", pa.ParseBlocksContents(qr.Content, false), qr.Prelude)
+			for _, k := range kd {
+				for _, d := range k.Declarations {
+					exerciseDecl(d)
+				}
+			}
+		}
+	}
+	return len(decls) > 0
+}
+
+func runFontFace(in string) bool {
+	cs := pa.ParseBlocksContentsString(in)
+	d := validation.PreprocessFontFaceDescriptors("", cs)
+	validation.PreprocessFontFaceDescriptors("http://c07.test/a/", cs)
+	return !reflect.DeepEqual(d, validation.FontFaceDescriptors{})
+}
+
+func runCounterDescriptors(in string) bool {
+	cs := pa.ParseBlocksContentsString(in)
+	d := validation.PreprocessCounterStyleDescriptors("", cs)
+	_ = d.Validate()
+	validation.PreprocessCounterStyleDescriptors("http://c07.test/a/", cs)
+	return !reflect.DeepEqual(d, counters.CounterStyleDescriptors{})
+}
+
+var counterValues = []int{-2, -1, 0, 1, 2, 3, 4, 5, 6, 7, 8, 9, 10, 11, 12, 1000000}
+
+func renderable(d counters.CounterStyleDescriptors) bool {
+	if d.Pad.Int > 100000 {
+		return false
+	}
+	return true
+}
+
+// renderCounters generates the representation of some values with every counter style of cs that is
+// not in the user-agent table.
+func renderCounters(cs counters.CounterStyle) int {
+	var names []string
+	for n := range cs {
+		if _, ua := tree.UACounterStyle[n]; !ua {
+			names = append(names, n)
+		}
+	}
+	sort.Strings(names)
+	n := 0
+	for _, name := range names {
+		if !renderable(cs[name]) {
+			continue
+		}
+		for _, v := range counterValues {
+			cs.RenderValue(v, name)
+			if v < 1000 {
+				cs.RenderMarker(pr.CounterStyleID{Name: name}, v)
+			}
+			n++
+		}
+	}
+	return n
+}
+
+func uaCounters() counters.CounterStyle {
+	cs := make(counters.CounterStyle, len(tree.UACounterStyle)+4)
+	for k, v := range tree.UACounterStyle {
+		cs[k] = v
+	}
+	return cs
+}
+
+func runCSSDefault(in string) bool {
+	cs := uaCounters()
+	css, err := tree.VerifC07NewCSS(utils.InputString(in), safeFetch, cs)
+	if err != nil {
+		return false
+	}
+	_ = css.IsNone()
+	renderCounters(cs)
+	rules := pa.ParseStylesheetBytes([]byte(in), true, true)
+	if len(rules) == 0 {
+		return false
+	}
+	for _, c := range rules {
+		if _, isErr := c.(pa.ParseError); isErr {
+			return false
+		}
+	}
+	return true
+}
+
+// runCounterRender: an @counter-style sheet (or a symbols() value after "symbols:") is parsed and rendered.
+func runCounterRender(in string) bool {
+	cs := uaCounters()
+	if strings.HasPrefix(in, "list-style-type:") {
+		decls := validation.PreprocessDeclarations("", pa.ParseBlocksContentsString(in))
+		ok := false
+		for _, d := range decls {
+			if id, is := d.Value.(pr.CounterStyleID); is {
+				ok = true
+				for _, v := range counterValues {
+					cs.RenderValueStyle(v, id)
+					if v < 1000 {
+						cs.RenderMarker(id, v)
+					}
+				}
+			}
+		}
+		return ok
+	}
+	if _, err := tree.VerifC07NewCSS(utils.InputString(in), safeFetch, cs); err != nil {
+		return false
+	}
+	return renderCounters(cs) > 0
+}
+
+func runPageDescriptors(in string) bool {
+	ok := false
+	for _, rule := range pa.ParseStylesheetBytes([]byte(in), true, true) {
+		if at, is := rule.(pa.AtRule); is && utils.AsciiLower(at.AtKeyword) == "page" {
+			if tree.VerifC07ParsePageSelectors(at.QualifiedRule) >= 0 {
+				ok = true
+			}
+		}
+	}
+	if _, err := tree.VerifC07NewCSS(utils.InputString(in), safeFetch, nil); err != nil {
+		return false
+	}
+	return ok
+}
+
+func runPageSelector(in string) bool {
+	return tree.VerifC07ParsePageSelectors(pa.QualifiedRule{Prelude: pa.Tokenize([]byte(in), false)}) >= 0
+}
+
+func runMediaQuery(in string) bool {
+	a := tree.VerifC07ParseMediaQuery(pa.Tokenize([]byte(in), false))
+	tree.VerifC07ParseMediaQuery(pa.Tokenize([]byte(in), true))
+	return a != nil
+}
+
+func stubImageLoader(url string) (backend.Image, error) {
+	return nil, errors.New("c07: no image loading")
+}
+
+func runSVG(in string, allowContainers bool) bool {
+	img, err := svg.Parse(strings.NewReader(in), "", stubImageLoader, safeFetch)
+	if err != nil {
+		return false
+	}
+	img.DisplayedSize()
+	img.ViewBox()
+	if os.Getenv("WRH_C07_NODRAW") != "" || svgTextRe.MatchString(in) {
+		return true
+	}
+	if svgContainerRe.MatchString(in) && !(allowContainers && strings.HasSuffix(in, drawSafeMark)) {
+		return true
+	}
+	rec := render.NewRec()
+	pg := rec.AddPage(0, 0, 120, 90)
+	img.Draw(pg, 120, 90, nil)
+	return true
+}
+
+func runDataURI(in string) bool {
+	if len(in) < 5 || !strings.EqualFold(in[:5], "data:") {
+		return false
+	}
+	_, err := utils.DefaultUrlFetcher(in)
+	_, err2 := utils.FetchSource(utils.InputUrl(in), "", safeFetch, false)
+	utils.FetchSource(utils.InputUrl(in), "", safeFetch, true)
+	return err == nil && err2 == nil
+}
+
+const urlSep = "\n@@\n"
+
+func runURL(in string) bool {
+	base, ref := "", in
+	if i := strings.Index(in, urlSep); i >= 0 {
+		base, ref = in[:i], in[i+len(urlSep):]
+	}
+	_, err := utils.SafeUrljoin(base, ref, false)
+	utils.SafeUrljoin(base, ref, true)
+	utils.UrlJoin(base, ref, true, "c07")
+	utils.Unquote(ref)
+	utils.Unquote(base)
+	n := &html.Node{Type: html.ElementNode, Data: "a", Attr: []html.Attribute{{Key: "href", Val: ref}}}
+	utils.GetLinkAttribute((*utils.HTMLNode)(n), "href", base)
+	(*utils.HTMLNode)(n).GetUrlAttribute("href", base, false)
+	svg.VerifC07ParseAttr("url", ref)
+	svg.VerifC07ParseAttr("url-fragment", "url("+ref+")")
+	return err == nil
+}
+
+type fontPool struct {
+	mu   sync.Mutex
+	free []text.FontConfiguration
+	repo string
+}
+
+func (p *fontPool) get() text.FontConfiguration {
+	p.mu.Lock()
+	if n := len(p.free); n > 0 {
+		f := p.free[n-1]
+		p.free = p.free[:n-1]
+		p.mu.Unlock()
+		return f
+	}
+	p.mu.Unlock()
+	f, err := render.NewFonts(p.repo)
+	if err != nil {
+		return nil
+	}
+	return f
+}
+
+func (p *fontPool) put(f text.FontConfiguration) {
+	p.mu.Lock()
+	p.free = append(p.free, f)
+	p.mu.Unlock()
+}
+
+func (p *fontPool) runHTMLAttr(in string) bool {
+	f := p.get()
+	if f == nil {
+		return false
+	}
+	pages, _, err := render.LayoutOnly(in, f, render.Opts{Hints: true, Fetcher: safeFetch})
+	p.put(f) // not returned on panic / timeout: a fresh configuration is built instead
+	return err == nil && len(pages) > 0
+}
+
+func runHTMLMeta(in string) bool {
+	h, err := tree.NewHTML(utils.InputString(in), "", safeFetch, "")
+	if err != nil {
+		return false
+	}
+	m := h.GetMetadata()
+	return m.Title != "" || !m.Created.IsZero() || !m.Modified.IsZero() || len(m.Keywords) > 0
+}
+
+// ---------------------------------------------------------------------------------------------
+// RunSearch
+
+func one(j job) []job { return []job{j} }
+
+// cssText: any CSS-ish text (whole sheets, declaration lists, values, junk).
+func cssText(g *cssGen) string {
+	r := g.r
+	switch r.Intn(10) {
+	case 0, 1, 2:
+		return g.stylesheet(false)
+	case 3, 4:
+		return g.declList(5)
+	case 5, 6:
+		return g.value(0, 6)
+	case 7:
+		a, b := g.decl()
+		return a + ":" + b
+	case 8:
+		return g.selectorGroup(0)
+	default:
+		n := r.Range(0, 12)
+		var b strings.Builder
+		for i := 0; i < n; i++ {
+			if r.Bool() {
+				b.WriteString(rng.Pick(r, cssInserts...))
+			} else {
+				b.WriteString(randByte(r))
+			}
+		}
+		return b.String()
+	}
+}
+
+// RunSearch is the crash search of C07 (see the package comment).
+func RunSearch(tier string, seed uint64, repo string, out *res.Result) error {
+	render.Quiet()
+	t0 := time.Now()
+	scale, limit := 1, 10*time.Minute
+	if tier == "thorough" {
+		scale, limit = 30, 20*time.Minute
+	}
+	workers := 8
+	if s := os.Getenv("WRH_C07_WORKERS"); s != "" {
+		if n, err := strconv.Atoi(s); err == nil && n > 0 && n <= 16 {
+			workers = n
+		}
+	}
+	if s := os.Getenv("WRH_C07_SCALE_PERCENT"); s != "" { // development aid
+		if n, err := strconv.Atoi(s); err == nil && n > 0 {
+			limit = limit * time.Duration(n) / 100
+		}
+	}
+	d := buildDict(repo)
+	if len(d.decls) < 50 || len(d.keywords) < 200 {
+		out.Notes = append(out.Notes, fmt.Sprintf("c07 search: small run-time corpus (%d declarations, %d keywords) harvested from %s/css", len(d.decls), len(d.keywords), repo))
+	}
+	e := &engine{out: out, workers: workers, t0: t0, limit: limit, classes: map[string]*class{}, distinct: map[uint64]struct{}{}, perOp: map[string]int{}, guard: 5 * time.Second}
+	root := rng.New(seed ^ 0xC07)
+	fonts := &fontPool{repo: repo}
+
+	propIdx := 0
+	nextProp := func() string {
+		p := d.props[propIdx%len(d.props)]
+		propIdx++
+		return p
+	}
+	simple := func(op string, run runFn, gen func(g *cssGen) string) func(r *rng.R) []job {
+		return func(r *rng.R) []job {
+			return one(job{op: op, body: gen(&cssGen{r, d}), run: run})
+		}
+	}
+	svgRun := func(in string) bool { return runSVG(in, true) }
+	svgShrink := func(in string) bool { return runSVG(in, false) }
+
+	groups := []group{
+		{name: "validate", n: 100000, base: func(r *rng.R) []job {
+			g := &cssGen{r, d}
+			var name, value string
+			switch r.Intn(10) {
+			case 0, 1, 2, 3: // every property name in turn x generated / borrowed value
+				name = nextProp()
+				switch r.Intn(4) {
+				case 0:
+					_, value = g.decl()
+				case 1:
+					value = g.component(0)
+				default:
+					value = g.value(0, 5)
+				}
+			default:
+				name, value = g.decl()
+			}
+			name = strings.TrimSpace(name)
+			return one(job{op: "validate:" + strings.ToLower(name), prefix: name + ":", body: value, run: runValidate})
+		}, mutate: func(r *rng.R, j job) []job {
+			if r.P(1, 40) { // every prefix of an accepted value
+				var out []job
+				for _, p := range prefixes(r, j.body, 60) {
+					m := j
+					m.body = p
+					out = append(out, m)
+				}
+				if len(out) > 0 {
+					return out
+				}
+			}
+			if r.P(1, 10) { // the accepted value under another property
+				m := j
+				name := nextProp()
+				m.op, m.prefix = "validate:"+strings.ToLower(name), name+":"
+				return one(m)
+			}
+			m := j
+			m.body = mutateText(r, j.body, cssInserts)
+			return one(m)
+		}},
+		{name: "font-face-descriptors", n: 15000, base: simple("font-face-descriptors", runFontFace, func(g *cssGen) string { return g.fontFaceDecls() })},
+		{name: "counter-style-descriptors", n: 15000, base: simple("counter-style-descriptors", runCounterDescriptors, func(g *cssGen) string { return g.counterStyleDecls(false) })},
+		{name: "counter-style-render", n: 15000, base: simple("counter-style-render", runCounterRender, func(g *cssGen) string {
+			r := g.r
+			if r.P(1, 5) {
+				e := validDecls[0]
+				for _, x := range validDecls {
+					if x.name == "list-style-type" {
+						e = x
+					}
+				}
+				if r.Bool() {
+					return "list-style-type:" + rng.Pick(r, e.values...)
+				}
+				var args []string
+				for i := 0; i < r.Range(0, 4); i++ {
+					args = append(args, rng.Pick(r, "'a'", "'b'", "\"\"", "url(a.png)", "x", "1", "linear-gradient(red,blue)"))
+				}
+				return "list-style-type:symbols(" + rng.Pick(r, "", "cyclic ", "numeric ", "alphabetic ", "symbolic ", "fixed ", "additive ", "x ") + strings.Join(args, " ") + ")"
+			}
+			var b strings.Builder
+			for i := 0; i < r.Range(1, 3); i++ {
+				b.WriteString("@counter-style " + rng.Pick(r, "cs1", "cs2", "cs1", "x") + " {" + g.counterStyleDecls(true) + "}\n")
+			}
+			return b.String()
+		})},
+		{name: "page-descriptors", n: 12000, base: simple("page-descriptors", runPageDescriptors, func(g *cssGen) string { return g.pageRule() })},
+		{name: "page-selector", n: 10000, base: simple("page-selector", runPageSelector, func(g *cssGen) string {
+			if g.r.P(1, 4) {
+				return rng.Pick(g.r, pagePreludes...) + rng.Pick(g.r, "", " ", ",", ":") + rng.Pick(g.r, pagePreludes...)
+			}
+			return rng.Pick(g.r, pagePreludes...)
+		})},
+		{name: "media-query", n: 10000, base: simple("media-query", runMediaQuery, func(g *cssGen) string {
+			if g.r.P(1, 4) {
+				return g.value(0, 4)
+			}
+			return rng.Pick(g.r, mediaQueries...)
+		})},
+		{name: "tokenize", n: 30000, base: simple("tokenize", runTokenize, cssText)},
+		{name: "parse-stylesheet", n: 30000, base: simple("parse-stylesheet", runParseStylesheet, cssText)},
+		{name: "parse-declarations", n: 30000, base: simple("parse-declarations", runParseDeclarations, cssText)},
+		{name: "parse-blocks-contents", n: 20000, base: simple("parse-blocks-contents", runParseBlocksContents, cssText)},
+		{name: "parse-one-declaration", n: 20000, base: simple("parse-one-declaration", runParseOneDeclaration, func(g *cssGen) string {
+			if g.r.P(1, 3) {
+				return cssText(g)
+			}
+			a, b := g.decl()
+			return a + ":" + b
+		})},
+		{name: "parse-rule-list", n: 20000, base: simple("parse-rule-list", runParseRuleList, cssText)},
+		{name: "parse-one-component-value", n: 20000, base: simple("parse-one-component-value", runParseOneComponentValue, func(g *cssGen) string {
+			if g.r.P(1, 4) {
+				return g.value(0, 3)
+			}
+			return g.component(0)
+		})},
+		{name: "nth", n: 30000, base: simple("nth", runNth, func(g *cssGen) string {
+			if g.r.P(1, 5) {
+				return g.value(0, 3)
+			}
+			return g.nth()
+		})},
+		{name: "color", n: 30000, base: simple("color", runColor, func(g *cssGen) string {
+			switch g.r.Intn(6) {
+			case 0:
+				return g.component(0)
+			case 1:
+				return rng.Pick(g.r, "rgb", "rgba", "hsl", "hsla", "hwb", "lab", "lch", "oklab", "oklch", "color") + "(" + g.value(1, 6) + ")"
+			}
+			return rng.Pick(g.r, colorLits...)
+		})},
+		{name: "selector", n: 30000, base: simple("selector", runSelector, func(g *cssGen) string { return g.selectorGroup(0) })},
+		{name: "css-default", n: 30000, batch: 3000, base: simple("css-default", runCSSDefault, func(g *cssGen) string { return g.stylesheet(true) })},
+		{name: "svg-document", n: 30000, batch: 3000, base: func(r *rng.R) []job {
+			g := &svgGen{r, &cssGen{r, d}}
+			doc, safe := g.document()
+			if safe {
+				doc += drawSafeMark
+			}
+			return one(job{op: "svg-document", body: doc, run: svgRun, shrink: svgShrink})
+		}, mutate: func(r *rng.R, j job) []job {
+			m := j
+			m.body = mutateText(r, strings.TrimSuffix(j.body, drawSafeMark), []string{"<", ">", "/", "\"", "=", "<g>", "</g>", "</svg>", "<svg>", " x=\"", "url(#", "#", "%", "e", "-", ".", ",", " ", "\x00", "&", "&#", "1e39", "<use href=\"#a\"/>", "<rect/>", "<path d=\"", "<!--", "<![CDATA["})
+			return one(m)
+		}},
+		{name: "data-uri", n: 30000, base: func(r *rng.R) []job {
+			return one(job{op: "data-uri", prefix: "", body: genDataURI(r), run: runDataURI})
+		}, mutate: func(r *rng.R, j job) []job {
+			m := j
+			m.body = mutateText(r, j.body, []string{"%", "%z", "%4", "%zz", ",", ";", "=", "base64", ";base64", "charset=", "/", ":", " ", "\n", "\x00", "\xff", "==", "é"})
+			return one(m)
+		}},
+		{name: "url", n: 30000, base: func(r *rng.R) []job {
+			return one(job{op: "url", body: rng.Pick(r, urlBases...) + urlSep + rng.Pick(r, urlRefs...), run: runURL})
+		}, mutate: func(r *rng.R, j job) []job {
+			m := j
+			m.body = mutateText(r, j.body, []string{"%", "%z", "%zz", "#", "?", "/", "//", ":", "[", "]", "@", "..", " ", "\x00", "\x7f", "\xff", "é", "\\"})
+			return one(m)
+		}},
+		{name: "html-meta", n: 4000, batch: 1000, base: func(r *rng.R) []job {
+			return one(job{op: "html-meta", body: genHTMLMetaDoc(r), run: runHTMLMeta})
+		}, mutate: func(r *rng.R, j job) []job {
+			m := j
+			m.body = mutateText(r, j.body, append([]string{"<", ">", "\"", "T", "Z", "+", "-", ":", "0", "99"}, metaDates...))
+			return one(m)
+		}},
+		{name: "html-attr", n: 1500, batch: 500, base: func(r *rng.R) []job {
+			return one(job{op: "html-attr", body: genHTMLAttrDoc(r), run: fonts.runHTMLAttr})
+		}, mutate: func(r *rng.R, j job) []job { // another value in one attribute
+			m := j
+			locs := attrValRe.FindAllStringIndex(j.body, -1)
+			if len(locs) == 0 {
+				return one(m)
+			}
+			l := locs[r.Intn(len(locs))]
+			v := htmlEscAttr(rng.Pick(r, htmlAttrValues...))
+			if strings.HasSuffix(j.body[:l[0]], "span") && bigSpan(v) {
+				v = "3"
+			}
+			m.body = j.body[:l[0]] + "=\"" + v + "\"" + j.body[l[1]:]
+			return one(m)
+		}},
+	}
+	// svg attribute parsers through the hook
+	for _, kind := range svg.VerifC07AttrKinds {
+		kind := kind
+		run := func(in string) bool { return svg.VerifC07ParseAttr(kind, in) == nil }
+		groups = append(groups, group{name: "svg-attr:" + kind, n: 3000, batch: 1500, base: func(r *rng.R) []job {
+			g := &svgGen{r, &cssGen{r, d}}
+			return one(job{op: "svg-attr:" + kind, body: attrValueFor(g, kind), run: run})
+		}, mutate: func(r *rng.R, j job) []job {
+			m := j
+			m.body = mutateText(r, j.body, []string{"(", ")", ",", " ", "-", ".", "e", "E", "+", "%", "1e39", "0", "1", "x", "#", "url(", "'", "\"", "\x00", "é", "M", "a", "z", "none"})
+			return one(m)
+		}})
+	}
+
+	only := os.Getenv("WRH_C07_ONLY") // development aid: comma separated group names
+	states := make([]*gstate, len(groups))
+	for i := range groups {
+		states[i] = &gstate{r: root.Sub()} // one stream per group whatever is skipped
+	}
+	passes := 0
+	for pass := 0; pass < scale && !e.expired(); pass++ {
+		passes++
+		for i, g := range groups {
+			if only != "" && !strings.Contains(","+only+",", ","+opGroup(g.name)+",") && !strings.Contains(","+only+",", ","+g.name+",") {
+				continue
+			}
+			tg := time.Now()
+			before := out.Evaluations
+			e.runGroup(g, states[i])
+			states[i].inputs += out.Evaluations - before
+			states[i].secs += time.Since(tg).Seconds()
+		}
+	}
+	for i, g := range groups {
+		if states[i].inputs > 0 {
+			out.Notes = append(out.Notes, fmt.Sprintf("c07 search %s: %d inputs in %.1fs", g.name, states[i].inputs, states[i].secs))
+		}
+	}
+	out.Dist["passes"] = passes
+	out.NotChecked = append(out.NotChecked, "html-attr: span / colspan / rowspan values above 100 are not generated in process (<col span=4294967296> makes boxes.handleCol allocate that many boxes: a fatal out-of-memory that cannot be recovered; large colspan/rowspan are slow by nature)",
+		"svg-document: documents holding marker / clipPath / mask / pattern elements are drawn only when generated without references inside these containers and unmutated (a reference cycle recurses until the Go stack overflows, see C18's known findings); documents with text / a / image elements are parsed but not drawn (no text context)")
+	nProps := 0
+	minPer := -1
+	for op, n := range e.perOp {
+		if strings.HasPrefix(op, "validate:") {
+			nProps++
+			if minPer < 0 || n < minPer {
+				minPer = n
+			}
+		}
+	}
+	out.Dist["validate:distinct-property-names"] = nProps
+	out.Dist["validate:min-inputs-per-name"] = minPer
+	out.Dist["corpus:test-declarations"] = len(d.decls)
+	out.Dist["corpus:keywords"] = len(d.keywords)
+	if e.capped {
+		out.Notes = append(out.Notes, fmt.Sprintf("c07 search: time cap of %s reached, remaining inputs skipped (the run is deterministic per seed only below the cap)", limit))
+		out.Hit("time-cap-reached")
+	}
+	e.report()
+	if out.Rule != "" {
+		out.Rule += " "
+	}
+	out.Rule += "Crash search (in process, every call under a 5 s guard): each parsing entry point receives (1) structured, mostly valid inputs — property validators/expanders: every declaration name of PropsFromNames + the shorthand table + logical/vendor/custom/unknown names, crossed with value literals harvested at run time from css/validation/*_test.go, a table of valid values per property family, and random CSS token sequences (keywords harvested from the validator sources, numbers, dimensions with every unit, strings, url(), ~60 functions with 0-5 arguments and random separators, blocks, hashes, unicode-range, at-keywords, delimiters, !important), each declaration run through the style-attribute path, the style-sheet path and, when it holds var(), the substitution + late validation of the cascade; @font-face / @counter-style descriptors (accepted counter styles are rendered for -2..12 and 10^6); @page preludes and margin boxes; media queries; CSS tokenizer / rule, declaration, component-value, An+B and colour parsers with serialise-and-reparse; selector groups (all combinators, pseudo-classes incl. :nth-*(an+b of S), :not/:is/:has, attribute operators and flags, namespaces, escapes) with String/Specificity/Match; whole style sheets (nesting, @media/@page/@font-face/@counter-style/@namespace/@import data:/@supports, unbalanced and 50-300 deep brackets, truncation, NUL/BOM/invalid UTF-8); SVG documents (shapes, path grammar, transforms, viewBox, preserveAspectRatio, gradients, patterns, markers, use cycles, clip/mask/filter, text, CSS, 100-500 deep nesting; drawn on the recording canvas when no reference cycle is possible) and the SVG attribute parsers one by one; data: URIs and URL joining/unquoting; small HTML documents exercising integer/length/colour attribute readers (laid out with presentational hints) and <meta> dates — and (2) mutations of inputs that were accepted (token deletion / duplication / swap / replacement, truncation incl. every prefix for a sample, insertion of var() var(--x) var(--x,) calc() , / brackets quotes NUL invalid UTF-8). Non-trivial = accepted by the entry point (no error) or a mutation of an accepted input, distinct by (entry point, input text). Failing inputs are shrunk by delta debugging (<=200 runs) before being reported; classes are (entry point, panic site)."
+	out.Notes = append(out.Notes, fmt.Sprintf("c07 search: %d crash classes; total %.0fs on %d workers", len(e.classes), time.Since(t0).Seconds(), workers))
+	return nil
+}
+
+var attrValRe = regexp.MustCompile(`="[^"]*"`)
